@@ -53,7 +53,9 @@ pub fn gen_setup(r: &mut Rng, profile: Profile, max_k: u32) -> Setup {
     // extra-large stream of C07 (release builds only): one big block, so that the U section of the
     // solver grows past one and two machine words on the dense back-end as well
     let xl = profile == Profile::C07 && max_k >= 1000;
-    let k_target = if xl { r.range(700, max_k as u64) as u32 } else { k_target };
+    // (max_k >= 5000 selects the very large variant: 3000..max_k symbols, where the sparse
+    // back-end's dense tail grows past two machine words)
+    let k_target = if xl { r.range(if max_k >= 5000 { 3000 } else { 700 }, max_k as u64) as u32 } else { k_target };
     let derived = r.chance(30, 100) && !xl;
     let mut with_defaults_mtu: Option<u16> = None;
     let mut oti: Option<Oti> = None;
@@ -126,7 +128,7 @@ pub fn gen_setup(r: &mut Rng, profile: Profile, max_k: u32) -> Setup {
             let z = if k_target > 150 { z.min(2) } else { z };
             let k_target = if z > 20 { k_target.min(6) } else if z > 4 { k_target.min(40) } else { k_target } as u64;
             let z = z.min((700 / k_target.max(1)).max(1));
-            let k_target = if xl { k_target.max(700) } else { k_target };
+            let k_target = if xl { k_target.max(if max_k >= 5000 { 3000 } else { 700 }) } else { k_target };
             let (t, al, n) = if z * k_target * t as u64 > 300_000 && !r.chance(1, 50) {
                 let t = *r.pick(&T_LIST);
                 let al = divisors_al(t, r);
@@ -190,7 +192,7 @@ pub fn gen_setup(r: &mut Rng, profile: Profile, max_k: u32) -> Setup {
     let total_syms = oti.f.div_ceil(oti.t as u64);
     let nrx = nrx.min((900 / total_syms.max(1)).max(1) as usize);
     for _ in 0..nrx {
-        let kind = *r.pick(&[RxKind::Decode, RxKind::Add, RxKind::Block]);
+        let kind = *r.pick(&[RxKind::Decode, RxKind::Add, RxKind::Block, RxKind::Block, RxKind::Mixed]);
         let threshold = match r.below(4) {
             0 | 1 => None,
             2 => Some(0),
@@ -198,7 +200,7 @@ pub fn gen_setup(r: &mut Rng, profile: Profile, max_k: u32) -> Setup {
         };
         let mirror_p = if profile == Profile::C08 { 60 } else { 25 };
         let mirror = if r.chance(mirror_p, 100) {
-            let others: Vec<RxKind> = [RxKind::Decode, RxKind::Add, RxKind::Block].into_iter().filter(|k| *k != kind).collect();
+            let others: Vec<RxKind> = [RxKind::Decode, RxKind::Add, RxKind::Block, RxKind::Mixed].into_iter().filter(|k| *k != kind).collect();
             Some(*r.pick(&others))
         } else {
             None
@@ -575,6 +577,22 @@ fn run_phases(s: &mut Sim, ks: &[u32]) -> Result<(), Fail> {
             s.emit(Event::Window { replica: rep, sbn: b as u8, s: ws, n: wn })?;
             for i in 0..wn {
                 s.send(Frame { replica: rep, sbn: b as u8, esi: ks[b] + ws + i })?;
+            }
+            // a sender that pre-computes a very large window (bulk generation) and transmits only
+            // its head: the window itself is checked, a few of its packets go on the wire
+            if s.profile == Profile::C18 && ks[b] <= 64 && s.r.chance(1, 40) {
+                let big = *s.r.pick(&[1000u32, 4095, 4096, 4097, 5000, 8192]);
+                let room = (1u32 << 24) - ks[b];
+                let start = match s.r.below(4) {
+                    0 => 0,
+                    1 => 1 + s.r.below(2000) as u32,
+                    2 => s.r.below((room - big) as u64) as u32,
+                    _ => room - big,
+                };
+                s.emit(Event::Window { replica: rep, sbn: b as u8, s: start, n: big })?;
+                for i in 0..3.min(big) {
+                    s.send(Frame { replica: rep, sbn: b as u8, esi: ks[b] + start + i })?;
+                }
             }
         }
         if !any {
